@@ -1,6 +1,7 @@
 /-
-  Core engine (stage S2): the engine's answers over a whole history equal the from-scratch oracle
-  `refOutputs` (which knows only input values and durabilities).  Core Lean only.
+  CoreAcc engine (adapted copy of CoreRef.lean): the engine's answers (`get` and `acc`) over a
+  whole history equal the from-scratch oracle `refOutputs` (which knows only input values and
+  durabilities).  Core Lean only.
 -/
 import SalsaVerif.Proofs.CoreAccHist
 
